@@ -399,11 +399,17 @@ class Particle(BaseParticle, AmpBase):
                 self.width = self.add_var("width", value=self.width, fix=True)
 
     def is_fixed_shape(self):
-        for k, v in self.__dict__.items():
+        def all_fixed(v):
             if isinstance(v, Variable):
-                if not v.is_fixed():
-                    return False
-        return True
+                return v.is_fixed()
+            # variables kept in containers (e.g. Flatte g_value, KMatrix mi)
+            if isinstance(v, (list, tuple)):
+                return all(all_fixed(i) for i in v)
+            if isinstance(v, dict):
+                return all(all_fixed(i) for i in v.values())
+            return True
+
+        return all(all_fixed(v) for v in self.__dict__.values())
 
     def as_config(self):
         ret = super(Particle, self).as_config()
